@@ -314,6 +314,8 @@ enum TState {
     BlockedCond(usize, Option<u64>),
     /// sleeping until a deadline (recv_timeout and friends)
     BlockedUntil(u64),
+    /// in `thread::park` / `park_timeout` (optional deadline), waiting for its token
+    BlockedPark(Option<u64>),
     Finished,
 }
 
@@ -327,6 +329,8 @@ struct Task {
     priority: u64,
     stalled_until: u64,
     rng_calls: u64,
+    /// the token of `thread::park` / `Thread::unpark`
+    park_token: bool,
     /// set when a timed wait ended by its deadline
     timed_out: bool,
     /// decisions in a row at which the task was runnable and another one was chosen
@@ -749,6 +753,7 @@ impl Sched {
                 TState::BlockedLock(l) => format!("blocked on lock#{} (held by {:?}, {} readers)", l, self.locks[*l].writer, self.locks[*l].readers),
                 TState::BlockedCond(c, d) => format!("waiting on condvar#{}{}", c, if d.is_some() { " (timed)" } else { "" }),
                 TState::BlockedUntil(d) => format!("sleeping until {} ns", d),
+                TState::BlockedPark(d) => format!("parked{}", if d.is_some() { " (timed)" } else { "" }),
             };
             if !s.is_empty() {
                 s.push_str("; ");
@@ -773,6 +778,7 @@ impl Sched {
             priority,
             stalled_until: 0,
             rng_calls: 0,
+            park_token: false,
             timed_out: false,
             passed_over: 0,
         });
@@ -781,7 +787,7 @@ impl Sched {
 
     fn deadline_of(t: &Task) -> Option<u64> {
         match t.state {
-            TState::BlockedCond(_, Some(d)) | TState::BlockedUntil(d) | TState::BlockedRecvUntil(_, d) => Some(d),
+            TState::BlockedCond(_, Some(d)) | TState::BlockedUntil(d) | TState::BlockedRecvUntil(_, d) | TState::BlockedPark(Some(d)) => Some(d),
             _ => None,
         }
     }
@@ -1610,6 +1616,35 @@ pub(crate) fn sim_sleep_until(sh: &Arc<Shared>, me: TaskId, ns: u64) {
     g = reschedule(sh, g, me);
     g.tasks[me].state = TState::Runnable;
     g.tasks[me].timed_out = false;
+}
+
+/// `thread::park` / `park_timeout`: consume the token if it is there, else wait for `unpark`
+/// (or the deadline on the simulated clock).
+pub(crate) fn sim_park(sh: &Arc<Shared>, me: TaskId, timeout_ns: Option<u64>) {
+    let mut g = sh.lock();
+    g.log(me, Ev::User { tag: "park", vals: Vec::new() });
+    if !g.tasks[me].park_token {
+        let d = timeout_ns.map(|ns| g.clock_ns.saturating_add(ns));
+        g.tasks[me].state = TState::BlockedPark(d);
+    }
+    g = reschedule(sh, g, me);
+    g.tasks[me].state = TState::Runnable;
+    g.tasks[me].park_token = false;
+    g.tasks[me].timed_out = false;
+}
+
+/// `Thread::unpark` on the thread of a simulated task.
+pub(crate) fn sim_unpark(sh: &Arc<Shared>, me: TaskId, target: TaskId) {
+    let mut g = sh.lock();
+    g.log(me, Ev::User { tag: "unpark", vals: vec![target as i64] });
+    if target < g.tasks.len() && g.tasks[target].state != TState::Finished {
+        g.tasks[target].park_token = true;
+        if matches!(g.tasks[target].state, TState::BlockedPark(_)) {
+            g.tasks[target].state = TState::Runnable;
+        }
+    }
+    let g = reschedule(sh, g, me);
+    drop(g);
 }
 
 /// Wait (at simulation level) until `target` has finished; no result is taken.
